@@ -19,6 +19,10 @@ var schedPlans = map[string][]string{
 	"C15": {"K-"},
 	"C18": {"S6-", "L-subdoc"},
 	"C20": {"X-"},
+	"C13": {"O-"},
+	"C04": {"H-"},
+	"C17": {"V-"},
+	"C16": {"T-"},
 }
 
 type genPlan struct {
